@@ -237,8 +237,8 @@ def make_cases(ctx):
                      "cv_by_ee_key", "dc_signed_by_other"):
             yield "dc-%s-%s-%s" % (ee, dc, what), dict(
                 site="dc", cls=what, ee=ee, dc=dc)
-    for what in ("honest", "wrong_fp", "no_chain"):
-        for ver in ((3, 3), (3, 4)):
+    for what in ("honest", "wrong_fp", "no_chain", "psk_with_checker"):
+        for ver in ((3, 3), (3, 4), (3, 1)):
             yield "checker-%s-%d" % (what, ver[1]), dict(
                 site="checker", cls=what, ver=ver)
 
@@ -884,7 +884,20 @@ def run_checker(ctx, cid, P):
         ver = (3, 3)
     cs = ver_settings(ver)
     ss = ver_settings(ver)
-    fl = Flavor(kind, skey="rsa", cset=cs, sset=ss, checker_c=chk)
+    from tlslite.sessioncache import SessionCache
+    from vt.flavours import TK
+    cache = SessionCache()
+    ss.ticketKeys = TK
+    if cls == "psk_with_checker":
+        # an external PSK is configured next to the pinned certificate: the
+        # PSK handshake shows no certificate, the pin cannot be checked
+        ver = (3, 4)
+        psk = (creds.PSK_ID, creds.PSK_SECRET, "sha256")
+        cs = ver_settings(ver, pskConfigs=[psk])
+        ss = ver_settings(ver, pskConfigs=[psk])
+        kind = "psk"
+    fl = Flavor(kind, skey="rsa", cset=cs, sset=ss, checker_c=chk,
+                session_cache=cache)
     p = Pair()
     tc, ts = p.handshake(fl)
     ctx.ev()
@@ -907,6 +920,23 @@ def run_checker(ctx, cid, P):
             ctx.count("rejected")
             if not p.c.closed:
                 ctx.violation(dict(key, clause="checker_not_closed"), W, "")
+            # the refused connection's session must not help a retry past
+            # the checker (resumed connections are not checked again)
+            sess = p.c.session
+            if sess is not None:
+                fl.session = sess
+                p2 = Pair()
+                t2c, t2s = p2.handshake(fl)
+                ctx.ev()
+                ctx.count("checker_retries")
+                if t2c.status == "done":
+                    ctx.violation(dict(key, clause="checker_mismatch_ignored",
+                                       retry=True,
+                                       resumed=bool(p2.c.resumed)),
+                                  dict(W, retry=[outcome(t2c), outcome(t2s)]),
+                                  "retry with the refused connection's "
+                                  "session completed (resumed=%s)" %
+                                  p2.c.resumed)
     ctx.cell("cell", "checker|%s|%s|%s" % (cls, pair.VNAME[ver], tc.status))
 
 
